@@ -135,7 +135,11 @@ From GQL Require Gen.Directives Tables.DirectiveTable.
 Theorem C01_gen_skip_include_declared : forall n, n = "skip" \/ n = "include" ->
   Tables.DirectiveTable.find_gdirective n Gen.Directives.specified_directives
   = Some (Tables.DirectiveTable.cond_directive n).
-Proof. intros n [-> | ->]; vm_compute; reflexivity. Qed.
+Proof.
+  intros n [-> | ->];
+  first [ vm_compute; reflexivity
+        | fail 1 "generated-table obligation C01_gen_skip_include_declared no longer holds against the regenerated table: @skip / @include (Gen/Directives.v) do not have the locations FIELD, FRAGMENT_SPREAD, INLINE_FRAGMENT and the single argument if: Boolean! that Exec.included and PlanCollect.plan_directives assume" ].
+Qed.
 Print Assumptions C01_gen_skip_include_declared.
 
 (* Exec.included (through bool_arg) and PlanCollect.plan_directives (through bool_arg_static)
@@ -153,6 +157,8 @@ Theorem C01_gen_condition_argument : forall n a, n = "skip" \/ n = "include" ->
                            (alookup (Gen.Directives.ga_name a) (d_args d)) None with
       | Some v => v | None => JNull end.
 Proof.
-  intros n a [-> | ->] H; vm_compute in H; injection H as <-; intros S d vars; split; reflexivity.
+  intros n a [-> | ->] H; vm_compute in H;
+  first [ injection H as <-; intros S d vars; split; reflexivity
+        | fail 1 "generated-table obligation C01_gen_condition_argument no longer holds against the regenerated table: the argument declared for @skip / @include (Gen/Directives.v) is not the one bool_arg / bool_arg_static read" ].
 Qed.
 Print Assumptions C01_gen_condition_argument.
